@@ -109,7 +109,7 @@ def stepping_graph(arch, code, entry, extra_roots=()):
     return {"entry": unit[entry][0] if unit.get(entry) else None, "exit": None, "blocks": blocks, "edges": edges}, unit
 
 
-def ground_F(F, entry_addr):
+def ground_F(F, entry_addr, manual=False):
     cfg = F["cfg"]
     errs = []
     bs = {b["index"] for b in cfg["blocks"]}
@@ -118,6 +118,12 @@ def ground_F(F, entry_addr):
             errs.append(f"edge {e['head']}->{e['tail']} refers to a missing block")
     if cfg.get("entry") not in bs:
         errs.append("entry refers to a missing block")
+    outs = {}
+    for e in cfg["edges"]:
+        outs.setdefault(e["head"], []).append(e)
+    for h, es in outs.items():
+        if not manual and len(es) > 1 and any(e["cond"] is None for e in es):
+            errs.append(f"block {h} has an unguarded edge next to {len(es) - 1} other edge(s)")
     # (no duplicate lifting is checked against the single-unit lifts in check_one)
     eb = next((b for b in cfg["blocks"] if b["index"] == cfg.get("entry")), None)
     if eb is not None:
@@ -137,7 +143,7 @@ def check_one(item):
     if not r.get("ok"):
         res.update(status="rejected", detail=r.get("error")); return res
     F = r["function"]
-    errs = ground_F(F, item["entry"])
+    errs = ground_F(F, item["entry"], bool(item.get("manual_edges")))
     res["ground"] = errs[:3]
     if errs:
         res.update(status="ground-fail", function=F); return res
@@ -300,7 +306,7 @@ def main():
         elif st in ("ground-fail", "panic", "sorterr"):
             rep.ground["checked"] += 1; rep.ground["failed"] += 1
             what = (r.get("ground") or [r.get("detail")])[0]
-            kind = "instruction " + str(what).split(" ", 3)[-1] if str(what).startswith("instruction at") else ("entry block is not the function address" if "entry block starts" in str(what) else st)
+            kind = "instruction " + str(what).split(" ", 3)[-1] if str(what).startswith("instruction at") else "unguarded edge next to other edges" if "unguarded edge" in str(what) else ("entry block is not the function address" if "entry block starts" in str(what) else st)
             rep.violation(f"function-recovery/{kind}", f"{r['id']}: {what}", {"program": it, "result": {k_: v_ for k_, v_ in r.items() if k_ != 'function'}})
         elif st == "sat":
             rep.count("sat")
